@@ -233,9 +233,24 @@ pub fn run_cases(cases: &[Case]) -> Vec<Outcome> {
     out
 }
 
+/// ladders whose *tree* depth grows with n although the parser does not recurse: left-nested
+/// chains built iteratively with `precede` (suffix chains, left-associative operators, doc
+/// unions/arrays/nullables) and `local function` nests flattened after the syntax-level limit
+/// (a swallowed error leaves one node open per statement). rowan drops and re-hashes green trees
+/// recursively, so very deep trees overflow a 2 MiB stack / take quadratic time.
+pub const DEEP_TREE_LADDERS: &[&str] = &[
+    "and-or", "call-chain", "doc-array", "doc-intersection", "doc-nullable", "doc-union", "dot-chain", "local-func",
+    "method-chain", "plus", "string-call",
+];
+pub const DEEP_TREE_MIN: usize = 8000;
+
+/// known-finding class, computed from the input only
 pub fn classify(c: &Case) -> Value {
-    let _ = c;
-    Value::Null
+    if c.depth >= DEEP_TREE_MIN && DEEP_TREE_LADDERS.contains(&c.label.as_str()) {
+        json!("iterative-chain-depth>=8000")
+    } else {
+        Value::Null
+    }
 }
 
 pub fn run(args: &Args, report: &mut Report) {
@@ -268,7 +283,8 @@ pub fn run(args: &Args, report: &mut Report) {
             }
         }
         // token soup, small and large
-        let (n_small, n_big, big_pieces) = if args.thorough() { (20_000, 60, 120_000) } else { (2_500, 6, 12_000) };
+        let only_ladders = args.extra.get("only").map(|s| s == "ladder").unwrap_or(false);
+        let (n_small, n_big, big_pieces) = if only_ladders { (0, 0, 0) } else if args.thorough() { (20_000, 60, 120_000) } else { (2_500, 6, 12_000) };
         for _ in 0..n_small {
             let (t, _) = tgen::text(&mut rng, 40);
             cases.push(Case { text: t, level: LEVELS[rng.below(8)], doc: rng.chance(3, 4), label: "soup".into(), depth: 0 });
